@@ -27,6 +27,10 @@ THEOREMS_3 = ["C02_adm_ctor", "C02_adm_accept_wf", "C02_adm_reject_unchanged", "
               "C02_bee_ctor", "C02_bee_accept_wf", "C02_bee_reject_unchanged", "C02_bee_history", "C02_bee_example",
               "C02_category_accept_wf", "C02_category_reject", "C02_category_text_refuted", "C02_category_text_partial",
               "C02_lss_ctor", "C02_lss_step", "C02_lss_history", "C02_lss_example"]
+THEOREMS_TV = ["C02_tv_hierarchy", "C02_tv_xsd_types", "C02_tv_cast_sound", "C02_tv_cast_identity", "C02_tv_cast_complete",
+               "C02_tv_cast_errors", "C02_tv_bounds", "C02_tv_holder_ctor", "C02_tv_holder_accept_wf",
+               "C02_tv_holder_reject_unchanged", "C02_tv_holder_history", "C02_tv_range_ctor", "C02_tv_range_accept_wf",
+               "C02_tv_range_reject_unchanged", "C02_tv_range_history", "C02_tv_example"]
 THEOREMS_4 = ["C02_sml_accept_wf", "C02_sml_reject", "C02_sml_history", "C02_sml_example",
               "C02_sml_step", "C02_sml_ops_history", "C02_sml_ops_example"]
 
@@ -620,11 +624,11 @@ def attr_verdict(e, ok, read, s, before, lbl):
 # =====================================================================================================
 
 def regenerate(chk):
-    from py2coq import refchecks, intranges, strconstraints, beechecks, semsetter
+    from py2coq import refchecks, intranges, strconstraints, beechecks, semsetter, typedvalues
     from py2coq.c02engine import Abort
     infos = {}
     for name, mod in (("refs", refchecks), ("ints", intranges), ("strs", strconstraints), ("bee", beechecks),
-                      ("sem", semsetter)):
+                      ("sem", semsetter), ("typed", typedvalues)):
         try:
             infos[name] = mod.regenerate(common.REPO, common.GEN)
         except Abort as e:
@@ -645,8 +649,11 @@ def fallback_info():
 def run(chk):
     with common.CoqLock():
         infos = regenerate(chk)
-    vo = ["theories/props/C02.vo", "theories/model/ConstraintsObs.vo"]
+    vo = ["theories/props/C02.vo", "theories/props/C02tv.vo", "theories/model/ConstraintsObs.vo",
+          "theories/model/TypedValueObs.vo"]
     built = chk.theorems("props.C02", THEOREMS_1 + THEOREMS_2 + THEOREMS_3 + THEOREMS_4, vo)
+    if built or not chk.broken:
+        built = chk.theorems("props.C02tv", THEOREMS_TV, vo) and built
     chk.cov["translators"] = {k: ("ok" if v else "ABORTED") for k, v in infos.items()}
     can_eval = built or not any(b.get("kind") == "proof" and "module" in b for b in chk.broken)
     if not can_eval:
@@ -674,17 +681,23 @@ def run(chk):
         c02_small.run_all(chk, can_eval)
         import c02_sml
         c02_sml.frag_sml(chk, can_eval)
+        import c02_typed
+        c02_typed.run_all(chk, can_eval and infos.get("typed") is not None)
     finally:
         if not can_eval:
             common.run_mismatch_shards = common_run
     chk.trusted = [
         "Coq 8.16.1 kernel (coqc; vm_compute for Examples and the tie evaluation; no native_compute)",
-        "translators tools/py2coq/{c02engine,refchecks,intranges,strconstraints,beechecks,semsetter}.py (fail-closed; validated on every run "
+        "translators tools/py2coq/{c02engine,refchecks,intranges,strconstraints,beechecks,semsetter,typedvalues}.py (fail-closed; validated on every run "
         "by evaluating the generated definitions and the Python originals on the same inputs)",
         "Python's re.fullmatch decides membership in the regular language of the (escape-free) patterns translated",
         "str.isalpha restricted to ASCII = [A-Za-z] (premise of C02_id_short, checked on all 128 code points)",
         "str.isdecimal() = every character has Unicode category Nd (reading of 'integer' in AASd-128)",
         "hand-written model coq/theories/model/ConstraintsModel.v, tied to base.py/submodel.py/aas.py by the correspondence runs",
+        "typed values: hand-written coq/theories/model/TypedValue.v (value = class + integer payload + characters + opaque token; "
+        "holder state machines), tied to datatypes.trivial_cast and the Property/Qualifier/Extension/Range setters by differential "
+        "runs; CPython facts bool < int and datetime < date (stated in the translator, compared with issubclass on every run); "
+        "spec_base / spec_castable / has_type in TypedValue.v transcribe the metamodel's data types and trivial_cast's docstring",
         "well-formedness predicates model/ConstraintsSpec.v are a transcription of constraints.rst / Part 1 / XML Schema Part 2",
         "tools/c02.py (generators, SDK drivers, oracles), tools/common.py",
     ]
@@ -715,6 +728,9 @@ def replay(path):
     if k in ("adm", "bee", "lss"):
         import c02_small
         return c02_small.replay_case(rp)
+    if k in ("tvholder", "tvrange"):
+        import c02_typed
+        return c02_typed.replay_case(rp)
     if k == "ref":
         types = [model.KeyTypes[t] for t in rp["types"]]
         ks = tuple(model.Key(t, v) for t, v in zip(types, rp["values"]))
